@@ -16,6 +16,9 @@ RULE = ("(A) MC_Core(stream + mutator families): 0<=pos<=len after every step, r
 def run(chk):
     thorough = chk.tier == 'thorough'
     L = 4 if thorough else 3
+    from concurrent.futures import ThreadPoolExecutor
+    vac_pool = ThreadPoolExecutor(max_workers=1)
+    vac = vac_pool.submit(common.mc_core_vacuity, chk, 'stream')
     join_ref = common.run_ref_machine(chk, mc=True, procs=16 if thorough else 6, num=60 if thorough else 4, thorough=thorough)
     common.run_families(chk, [('stream', L, 2, L)], STREAMS)
     mut = [('grow', 3, 2, 3), ('del', 2, 2, 2), ('setitem', 2, 2, 2), ('replace', 2, 1, 1), ('range', 2, 2, None)]
@@ -24,6 +27,8 @@ def run(chk):
                ('range', 2, 2, 2), ('set', 2, 2, 2), ('bitwise', 3, 2, 3)]
     common.run_families(chk, mut, ['BitStream'], all_pos=True)
     join_ref()
+    vac.result()
+    vac_pool.shutdown()
     chk.exhaustive = True
     common.run_random(chk, drivers.c06_program, 8000 if thorough else 1500, 6, huge=0.01 if thorough else 0.0)
     from harness import fmtprogs
